@@ -28,7 +28,15 @@ Inductive obs :=
 | OLeave (s : nat)                             (* state removed from the active configuration *)
 | OEmit (k : nat) (which : nat)                (* an emit listener was called: 0 typed, 1 wildcard *)
 | OPAct (k : nat)                              (* pure API: user action k reported (not run) *)
-| OPBuiltin (code : nat).                      (* pure API: built-in reported: 1 assign, 2 raise, 3 emit, 4 other *)                             (* answer of can(event), probed by the harness before a send *)
+| OPBuiltin (code : nat)                       (* pure API: built-in reported: 1 assign, 2 raise, 3 emit, 4 other *)
+| OFail                                        (* on_error hook: the machine entered the error status *)
+| OClock (t : nat).                            (* the virtual clock, recorded when an event starts processing and after a slow action *)                             (* answer of can(event), probed by the harness before a send *)
+
+(* an armed after-timer or a running invoked service, on the virtual clock (ms) *)
+Inductive pkind :=
+| PAfter (evtype : string)                                 (* delivers AfterEvent(type) *)
+| PSvc (iid : string) (ok : bool) (val : Z) (handled : bool).  (* delivers done.invoke / error.platform; unhandled error fails the machine *)
+Record pend := { p_owner : nat; p_due : nat; p_seq : nat; p_kind : pkind }.
 
 Record st := {
   s_cfg : config;
@@ -38,26 +46,27 @@ Record st := {
   s_status : status;
   s_output : option Z;
   s_log : list obs;                    (* newest FIRST *)
-  s_raise_depth : nat }.
+  s_raise_depth : nat;
+  s_now : nat;                         (* virtual clock, ms *)
+  s_pending : list pend;               (* armed timers / running services *)
+  s_seq : nat }.                       (* creation counter (ties on the clock fire in creation order) *)
 
 Definition st_init (cx : ctx) : st :=
   {| s_cfg := []; s_hist := []; s_ctx := cx; s_queue := []; s_status := Uninit; s_output := None;
-     s_log := []; s_raise_depth := 0 |}.
+     s_log := []; s_raise_depth := 0; s_now := 0; s_pending := []; s_seq := 0 |}.
 
-Definition with_cfg C s := {| s_cfg := C; s_hist := s_hist s; s_ctx := s_ctx s; s_queue := s_queue s;
-  s_status := s_status s; s_output := s_output s; s_log := s_log s; s_raise_depth := s_raise_depth s |}.
-Definition with_hist H s := {| s_cfg := s_cfg s; s_hist := H; s_ctx := s_ctx s; s_queue := s_queue s;
-  s_status := s_status s; s_output := s_output s; s_log := s_log s; s_raise_depth := s_raise_depth s |}.
-Definition with_ctx c s := {| s_cfg := s_cfg s; s_hist := s_hist s; s_ctx := c; s_queue := s_queue s;
-  s_status := s_status s; s_output := s_output s; s_log := s_log s; s_raise_depth := s_raise_depth s |}.
-Definition with_queue q s := {| s_cfg := s_cfg s; s_hist := s_hist s; s_ctx := s_ctx s; s_queue := q;
-  s_status := s_status s; s_output := s_output s; s_log := s_log s; s_raise_depth := s_raise_depth s |}.
-Definition with_status x o s := {| s_cfg := s_cfg s; s_hist := s_hist s; s_ctx := s_ctx s; s_queue := s_queue s;
-  s_status := x; s_output := o; s_log := s_log s; s_raise_depth := s_raise_depth s |}.
-Definition with_log l s := {| s_cfg := s_cfg s; s_hist := s_hist s; s_ctx := s_ctx s; s_queue := s_queue s;
-  s_status := s_status s; s_output := s_output s; s_log := l; s_raise_depth := s_raise_depth s |}.
-Definition with_rd n s := {| s_cfg := s_cfg s; s_hist := s_hist s; s_ctx := s_ctx s; s_queue := s_queue s;
-  s_status := s_status s; s_output := s_output s; s_log := s_log s; s_raise_depth := n |}.
+Definition mk (C : config) H c q x o l rd now pd sq : st :=
+  {| s_cfg := C; s_hist := H; s_ctx := c; s_queue := q; s_status := x; s_output := o; s_log := l;
+     s_raise_depth := rd; s_now := now; s_pending := pd; s_seq := sq |}.
+Definition with_cfg C s := mk C (s_hist s) (s_ctx s) (s_queue s) (s_status s) (s_output s) (s_log s) (s_raise_depth s) (s_now s) (s_pending s) (s_seq s).
+Definition with_hist H s := mk (s_cfg s) H (s_ctx s) (s_queue s) (s_status s) (s_output s) (s_log s) (s_raise_depth s) (s_now s) (s_pending s) (s_seq s).
+Definition with_ctx c s := mk (s_cfg s) (s_hist s) c (s_queue s) (s_status s) (s_output s) (s_log s) (s_raise_depth s) (s_now s) (s_pending s) (s_seq s).
+Definition with_queue q s := mk (s_cfg s) (s_hist s) (s_ctx s) q (s_status s) (s_output s) (s_log s) (s_raise_depth s) (s_now s) (s_pending s) (s_seq s).
+Definition with_status x o s := mk (s_cfg s) (s_hist s) (s_ctx s) (s_queue s) x o (s_log s) (s_raise_depth s) (s_now s) (s_pending s) (s_seq s).
+Definition with_log l s := mk (s_cfg s) (s_hist s) (s_ctx s) (s_queue s) (s_status s) (s_output s) l (s_raise_depth s) (s_now s) (s_pending s) (s_seq s).
+Definition with_rd n s := mk (s_cfg s) (s_hist s) (s_ctx s) (s_queue s) (s_status s) (s_output s) (s_log s) n (s_now s) (s_pending s) (s_seq s).
+Definition with_now n s := mk (s_cfg s) (s_hist s) (s_ctx s) (s_queue s) (s_status s) (s_output s) (s_log s) (s_raise_depth s) n (s_pending s) (s_seq s).
+Definition with_pending pd sq s := mk (s_cfg s) (s_hist s) (s_ctx s) (s_queue s) (s_status s) (s_output s) (s_log s) (s_raise_depth s) (s_now s) pd sq.
 Definition logo (o : obs) (s : st) : st := with_log (o :: s_log s) s.
 
 (* computations that mutate the interpreter and may raise *)
@@ -84,6 +93,57 @@ Definition accepts (eng : engine) (x : status) : bool :=
 Definition send_self (eng : engine) (ev : event) (s : st) : st :=
   if accepts eng (s_status s) then with_queue (s_queue s ++ [ev]) s else s.
 
+(* ---------------- armed timers and running services on the virtual clock ---------------- *)
+
+(* _fail: terminal error status, on_error hook, subscribers notified *)
+Definition fail_machine (s : st) : st :=
+  match s_status s with
+  | Running | Uninit => logo (ONotify (sort_nat (s_cfg s))) (logo OFail (with_status Errored (s_output s) s))
+  | _ => s
+  end.
+
+Definition svc_event (iid : string) (ok : bool) : event :=
+  {| e_type := ((if ok then "done.invoke." else "error.platform.") ++ iid)%string; e_kind := EDone iid; e_tag := 0 |}.
+
+(* what an expiring timer / finishing service does (the interpreter may be busy or idle; this only queues) *)
+Definition deliver (eng : engine) (p : pend) (s : st) : st :=
+  match p_kind p with
+  | PAfter ty =>
+      let ev := {| e_type := ty; e_kind := EAfter; e_tag := 0 |} in
+      match eng with
+      | Async => send_self eng ev s
+      | _ => (* the sync timer thread re-checks that its owner is still active *)
+             match s_status s with
+             | Running => if mem (p_owner p) (s_cfg s) then send_self eng ev s else s
+             | _ => s
+             end
+      end
+  | PSvc iid ok val handled =>
+      let s1 := send_self eng (svc_event iid ok) s in
+      if ok || handled then s1 else fail_machine s1
+  end.
+
+Fixpoint ins_pend (p : pend) (l : list pend) : list pend :=
+  match l with
+  | [] => [p]
+  | q :: r => if Nat.ltb (p_due q) (p_due p) || (Nat.eqb (p_due q) (p_due p) && Nat.ltb (p_seq q) (p_seq p))
+              then q :: ins_pend p r else p :: l
+  end.
+Definition sort_pend (l : list pend) : list pend := fold_right ins_pend [] l.
+
+(* the interpreter is busy for d ms (a slow action): everything that falls due meanwhile is delivered
+   (queued) in due order, nothing is processed *)
+Definition advance_busy (eng : engine) (d : nat) (s : st) : st :=
+  let target := s_now s + d in
+  let due := sort_pend (filter (fun p => Nat.leb (p_due p) target) (s_pending s)) in
+  let rest := filter (fun p => negb (Nat.leb (p_due p) target)) (s_pending s) in
+  let tie := (fix has_tie (l : list pend) : bool :=
+                match l with a :: ((b :: _) as r) => Nat.eqb (p_due a) (p_due b) || has_tie r | _ => false end) due in
+  (* two items due at the same instant: the real order is the event loop's / OS scheduler's business;
+     the model marks the run inconclusive (OCut 9) instead of guessing *)
+  (if tie then logo (OCut 9) else (fun x => x))
+    (with_now target (fold_left (fun s' p => deliver eng p s') due (with_pending rest (s_seq s) s))).
+
 (* ---------------- actions ---------------- *)
 
 Fixpoint pure_actions (acts : list act) (s : st) : st :=
@@ -92,7 +152,7 @@ Fixpoint pure_actions (acts : list act) (s : st) : st :=
   | a :: r =>
     pure_actions r
       match a with
-      | AMark k | AFail k | AMissing k => logo (OPAct k) s
+      | AMark k | AFail k | AMissing k | ASlow k _ => logo (OPAct k) s
       | AAssign v z => logo (OPBuiltin 1) (with_ctx (ctx_set (s_ctx s) v z) s)
       | ARaise _ _ => logo (OPBuiltin 2) s
       | AEmit _ => logo (OPBuiltin 3) s
@@ -116,6 +176,8 @@ Fixpoint run_actions (eng : engine) (processing : bool) (acts : list act) (ev : 
         run_actions eng processing r ev (send_self eng {| e_type := ty; e_kind := EPlain; e_tag := tag |} s1)
     | ABadBuiltin k => (logo (OActErr k) s, None)
     | AEmit k => run_actions eng processing r ev (logo (OEmit k 1) (logo (OEmit k 0) s))
+    | ASlow k d => run_actions eng processing r ev
+                     (let s' := advance_busy eng d (logo (OAct k (e_type ev) (e_tag ev)) s) in logo (OClock (s_now s')) s')
     end
   end.
 
@@ -248,17 +310,34 @@ Definition fire_on_done (eng : engine) (pr : bool) (m : machine) (fin : nat) (s 
 
 (* at this level only the call and the "service not registered" failure are
    modelled; Timers.v refines what an armed task does later *)
-Definition sched_run (m : machine) (x : nat) : M :=
+Definition arm (x : nat) (due : nat) (k : pkind) (s : st) : st :=
+  with_pending (s_pending s ++ [{| p_owner := x; p_due := due; p_seq := s_seq s; p_kind := k |}]) (S (s_seq s)) s.
+
+(* _schedule_state_tasks: one timer per after-transition, then each invoked service (a service that is not
+   registered is fatal; the async engine starts a task, the sync engine calls the service inline) *)
+Definition start_service (eng : engine) (x : nat) (i : invoke) : M :=
+  if Nat.eqb (i_src i) 0 then raise EImplMissing
+  else match eng with
+       | Async => lift (fun s => arm x (s_now s + i_dur i)
+                                   (PSvc (i_id i) (i_ok i) (i_val i) (match i_onerror i with [] => false | _ => true end)) s)
+       | _ => lift (fun s => deliver eng {| p_owner := x; p_due := s_now s; p_seq := 0;
+                                             p_kind := PSvc (i_id i) (i_ok i) (i_val i)
+                                                            (match i_onerror i with [] => false | _ => true end) |} s)
+       end.
+Definition sched_run (eng : engine) (m : machine) (x : nat) : M :=
   lift (logo (OSched x)) ;;
-  (if existsb (fun i => Nat.eqb (i_src i) 0) (n_invoke (nd m x)) then raise EImplMissing else ret).
-Definition cancel (x : nat) : M := lift (logo (OCancel x)).
+  lift (fun s => fold_left (fun s' dt => fold_left (fun s'' t => arm x (s_now s'' + fst dt) (PAfter (t_event t)) s'') (snd dt) s')
+                           (n_after (nd m x)) s) ;;
+  for_each (start_service eng x) (n_invoke (nd m x)).
+Definition cancel (x : nat) : M :=
+  lift (fun s => with_pending (filter (fun p => negb (Nat.eqb (p_owner p) x)) (s_pending s)) (s_seq s) (logo (OCancel x) s)).
 (* where _schedule_state_tasks sits relative to the descent: before it (async), after it (sync); never (pure) *)
 Definition sched (eng : engine) (m : machine) (x : nat) : M :=
-  match eng with Pure => ret | _ => sched_run m x end.
+  match eng with Pure => ret | _ => sched_run eng m x end.
 Definition sched_before (eng : engine) (m : machine) (x : nat) : M :=
-  match eng with Async => sched_run m x | _ => ret end.
+  match eng with Async => sched_run eng m x | _ => ret end.
 Definition sched_after (eng : engine) (m : machine) (x : nat) : M :=
-  match eng with Sync => sched_run m x | _ => ret end.
+  match eng with Sync => sched_run eng m x | _ => ret end.
 
 (* ---------------- entry ---------------- *)
 
